@@ -104,10 +104,17 @@ func isParamValue(v ssa.Value, p *ssa.Parameter) bool {
 // changing behaviour, a renamed parameter is found through a second
 // description of the same role: its (unique) type, or its position.
 func paramNamed(fn *ssa.Function, name string) *ssa.Parameter {
+	return paramNamedOpt(fn, name, true)
+}
+
+// paramNamedOpt: with anchor == false the function does not become an anchor
+// (used where the function was not chosen by the rule but found, e.g. as the
+// function a store happens to lie in).
+func paramNamedOpt(fn *ssa.Function, name string, anchor bool) *ssa.Parameter {
 	if fn == nil {
 		return nil
 	}
-	if fn.Prog != nil {
+	if fn.Prog != nil && anchor {
 		for _, m := range loadedModules {
 			if m.Prog == fn.Prog {
 				m.anchor(fn)
